@@ -7,11 +7,12 @@ pat = sys.argv[2] if len(sys.argv) > 2 else ''
 tier = sys.argv[3] if len(sys.argv) > 3 else 'quick'
 known, _, _ = runner.load_known(sys.argv[1].upper())
 for case in mod.cases(tier):
-    if pat and pat not in case.name: continue
+    if pat and pat not in case.id: continue
     t=time.time()
     r = C.run_case(case, tier, known.get(case.id, {}))
     print('==', case.id, 'paths', r['paths'], 'cover', r['cover'], '%.2fs'%(time.time()-t))
     if r['error']: print('ERROR', r['error'])
+    if r['notes']: print('NOTES', sorted(set(r['notes']))[:5])
     if r['undecided_reason']: print('UNDECIDED', r['undecided_reason'])
     for k,v in r['clauses'].items():
         print('   ', k, v['kind'], v['status'], 'vcs', v['vcs'], '%.2fs'%v['seconds'], v['witness'] or '', v['reason'][:300], [x['id'] for x in v['known']])
